@@ -78,6 +78,14 @@ def derive_seed(seed, *parts):
     return h64(('seed', int(seed)) + tuple(parts)) & 0x7fffffff
 
 
+def fresh(s):
+    """An equal but not identical (and not interned) copy of a str: code
+    that compares selector strings with `is` only works for literals."""
+    if type(s) is not str or not s:
+        return s
+    return (s + ' ')[:-1] if len(s) > 1 else bytes(s, 'utf-8').decode('utf-8')
+
+
 def jsonable(x, limit=400):
     """Best-effort conversion of a case to something json.dump accepts."""
     if isinstance(x, (bytes, bytearray)):
